@@ -2,6 +2,7 @@ import PfVerif.Proofs.C10
 import PfVerif.Proofs.C10Seg
 import PfVerif.Proofs.C10Total
 import PfVerif.Proofs.C10Stat
+import PfVerif.Proofs.C10Lstsq
 import PfVerif.Props.C11
 /-! # C10 — unit catchments partition the fine grid by nearest downstream outlet pixel
 
@@ -782,6 +783,81 @@ theorem slope_mean_def (cells : List Nat) (elevtn distnc : Array Int) (lstsq : B
   constructor
   · intro h; simp [slopeNumDen, h]
   · intro h; simp [slopeNumDen, h]
+
+/-! ### the least-squares denominator (third round) -/
+
+/-- **Lagrange's identity for the least-squares denominator**: the denominator `n·Σx² − (Σx)²` of
+`arithmetics.lstsq` equals the sum of the squared differences of all pairs of abscissae,
+`Σ_{i<j} (x_i − x_j)²` (`pairSqSum`); in particular it is never negative. -/
+theorem lstsq_den_identity (xs ys : List Int) :
+    (lstsqNumDen xs ys).2 = pairSqSum xs ∧ 0 ≤ (lstsqNumDen xs ys).2 := by
+  rw [lstsqNumDen_snd, lstsqDen_eq_pairSqSum]
+  exact ⟨rfl, pairSqSum_nonneg xs⟩
+
+/-- **the denominator is strictly positive unless all abscissae are equal** (Cauchy-Schwarz with equality
+case): `D > 0` as soon as two entries differ, and `D = 0` exactly when all entries are equal. -/
+theorem lstsq_den_pos (xs ys : List Int) :
+    ((∃ a ∈ xs, ∃ b ∈ xs, a ≠ b) → 0 < (lstsqNumDen xs ys).2) ∧
+    ((lstsqNumDen xs ys).2 = 0 ↔ ∀ a ∈ xs, ∀ b ∈ xs, a = b) := by
+  rw [lstsqNumDen_snd, lstsqDen_eq_pairSqSum]
+  refine ⟨pairSqSum_pos xs, fun h a ha b hb => ?_, pairSqSum_zero xs⟩
+  apply Classical.byContradiction
+  intro hab
+  have := pairSqSum_pos xs ⟨a, ha, b, hb, hab⟩
+  omega
+
+/-- **a one-cell segment is not divided at all** (`if len(idxs) > 1: ... else: rivslp[i] = 0.0` in
+`segment_slope`, `if len(xs) >= 2` in `fixed_length_slope`): for at most one cell the model returns the
+fraction `0 / 1` for both methods, whatever the elevations and distances. -/
+theorem slope_single_cell (cells : List Nat) (elevtn distnc : Array Int) (lstsq : Bool)
+    (h : cells.length ≤ 1) : slopeNumDen cells elevtn distnc lstsq = (0, 1) := by
+  have : ¬ cells.length > 1 := by omega
+  simp [slopeNumDen, this]
+
+/-- **the slope is never a division by zero**: when the distances along the cells of the segment are
+strictly monotone (they are along every flow path: `distnc` strictly increases upstream) the denominator
+of the model's slope fraction is strictly positive for the least-squares method - for every number of
+cells, the one-cell guard included - and non-zero for the mean method. -/
+theorem slope_den_pos (cells : List Nat) (elevtn distnc : Array Int)
+    (hmono : (cells.map fun c => distnc[c]!).Pairwise (· < ·) ∨ (cells.map fun c => distnc[c]!).Pairwise (· > ·)) :
+    0 < (slopeNumDen cells elevtn distnc true).2 ∧ (slopeNumDen cells elevtn distnc false).2 ≠ 0 := by
+  by_cases hlen : cells.length > 1
+  · constructor
+    · unfold slopeNumDen
+      rw [if_pos hlen]
+      simp only [if_true]
+      exact (lstsq_den_pos _ _).1 (exists_ne_of_pairwise (by simp only [List.length_map]; omega) hmono)
+    · match cells, hlen with
+      | a :: b :: t, _ =>
+        have hl : (a :: b :: t).getLast! ∈ b :: t := by
+          have : (a :: b :: t).getLast! = (b :: t).getLast (by simp) := by
+            simp [List.getLast!_eq_getLast?_getD, List.getLast?_eq_some_getLast]
+          rw [this]; exact List.getLast_mem _
+        have hm : distnc[(a :: b :: t).getLast!]! ∈ (b :: t).map fun c => distnc[c]! :=
+          List.mem_map.mpr ⟨_, hl, rfl⟩
+        have hh : (a :: b :: t).head! = a := rfl
+        have hval : (slopeNumDen (a :: b :: t) elevtn distnc false).2 =
+            distnc[a]! - distnc[(a :: b :: t).getLast!]! := by
+          unfold slopeNumDen
+          rw [if_pos (by simp), hh]
+          simp
+        rw [hval]
+        simp only [List.map_cons] at hmono hm
+        rcases hmono with h | h
+        · have := (List.pairwise_cons.mp h).1 _ hm; omega
+        · have := (List.pairwise_cons.mp h).1 _ hm; omega
+  · rw [slope_single_cell cells elevtn distnc true (by omega),
+      slope_single_cell cells elevtn distnc false (by omega)]
+    exact ⟨by decide, by decide⟩
+
+/-- non-vacuity: distances 5, 3, 2 (strictly decreasing downstream): D = 3·38 − 100 = 14 = 4 + 9 + 1 -/
+example : (lstsqNumDen [5, 3, 2] [7, 4, 4]).2 = 14 ∧ pairSqSum [5, 3, 2] = 14 ∧
+    (lstsqNumDen [4, 4, 4] [1, 2, 3]).2 = 0 := by decide
+example : slopeNumDen [2, 1, 0] #[0, 1, 3] #[2, 3, 5] true = (14, 14) ∧
+    slopeNumDen [2] #[0, 1, 3] #[2, 3, 5] true = (0, 1) ∧ slopeNumDen [] #[0, 1, 3] #[2, 3, 5] false = (0, 1) := by
+  decide
+example : 0 < (slopeNumDen [2, 1, 0] #[0, 1, 3] #[2, 3, 5] true).2 :=
+  (slope_den_pos [2, 1, 0] #[0, 1, 3] #[2, 3, 5] (Or.inr (by decide))).1
 
 /-- **slope around the outlet pixel** (`fixed_length_slope`, `subgrid_rivslp(direction="both")`): the cells
 used start at the first cell downstream of the outlet pixel that is a pit, has no downstream cell (an
